@@ -13,7 +13,7 @@ calls), routed to the real kernel (`impl`) and to the driver op `gen_kernel` (Dr
 The owner's cases and verdict logic are untouched.
 
 Case format:  {"op": "gen_kernel", "kernel": <name>, "args": [{"arr": [...]}, {"barr": [...]}, {"int": n}, {"bool": b},
-               {"none": true}], "fuel": n, "_unsafe": bool}
+               {"str": "..."}, {"none": true}], "fuel": n, "_unsafe": bool}
 `_unsafe` marks a call that may subscript out of range: compiled code does not check subscripts, so such a call is only
 executed interpreted / bounds-checked (USE_NUMBA=false, NUMBA_BOUNDSCHECK=1), never in the plain JIT mode."""
 import os
@@ -67,6 +67,9 @@ KERNELS = {
     "categorical_transform": {"owner": "C06", "mutated": [0]},                 # returns None: the result is `chunk`
     "leaky_categorical_transform": {"owner": "C06", "mutated": [0, 1, 2]},     # chunk, freetext_indices, freetext_values
     "fixed_string_transform": {"owner": "C06", "mutated": [6]},                # returns None: the result is `memory`
+    # (exception_message, exception_args: list of arrays), elements, validity; column_vals / field_name are uint8 as at the call
+    # site (NumericImporter.import_part), validation_mode a Python str
+    "numeric_bool_transform": {"owner": "C06", "mutated": [0, 1], "dtypes": {3: "uint8", 9: "uint8"}},
     "generate_ordered_map_to_left_both_unique": {"owner": "C19", "mutated": [2]},
     "generate_ordered_map_to_left_right_unique": {"owner": "C19", "mutated": [2]},
     "ordered_inner_map_both_unique": {"owner": "C19", "mutated": [2, 3]},      # returns None
@@ -911,6 +914,136 @@ def random_c06(rng, n_cases):
         out.append(gcase("categorical_transform",
                          [arr([0] * chunk_n), {"int": ic}, arr2(cinds), arr(vals), arr(coffs), arr(keys), arr(index), arr(values)],
                          unsafe=not categorical_safe(chunk_n, ic, cinds, vals, coffs, keys, index, values), _from="random"))
+    # numeric_bool_transform: a stream of its own, drawn AFTER the loop above so that the cases above stay what they were
+    import random as _random
+    out.extend(random_numeric_bool(_random.Random(rng.randrange(1 << 30)), max(54, n_cases // 4)))
+    return out
+
+
+NBT_CELLS = [b"1", b"0", b" y ", b"no", b"ON", b"off", b"yes", b"true", b"False", b"", b"  ", b"2", b"tru", b"maybe",
+             b"T", b"n ", b" oN", b"Yes ", b"TRUE", b"fALSE", b"of", b"falsy", b"truee", b"f", b"N", b" 1", b"oFF  ", b"x y"]
+NBT_GOOD = [b"1", b"0", b" y ", b"no", b"ON", b"off", b"yes", b"true", b"False", b"T", b"n ", b" oN", b"Yes ", b"fALSE"]
+NBT_WORDS = {2: [[(79, 111), (78, 110)], [(78, 110), (79, 111)]],
+             3: [[(89, 121), (69, 101), (83, 115)], [(79, 111), (70, 102), (70, 102)]],
+             4: [[(84, 116), (82, 114), (85, 117), (69, 101)]],
+             5: [[(70, 102), (65, 97), (76, 108), (83, 115), (69, 101)]]}
+
+
+def numeric_bool_safe(nel, nval, cinds, vals, coffs, ic, rows, mode):
+    """every subscript numeric_bool_transform makes is in range (a transliteration of the kernel on Python lists that checks
+    each subscript before it is made, in evaluation order; a negative one within -len..-1 wraps, still in range).  The
+    ValueError of `val in (…)` on a slice that is not of length 1 is raised by compiled and interpreted code alike: the call
+    ends there, in range so far."""
+    if not _inr(ic, len(coffs)):
+        return False
+    off = coffs[ic]
+    for r in range(rows):
+        if not _inr(ic, len(cinds)):
+            return False
+        row = cinds[ic]
+        if not (_inr(r, len(row)) and _inr(r + 1, len(row))):
+            return False
+        rs, re_ = row[r], row[r + 1]
+        length = re_ - rs
+        bs, be = 0, length - 1
+        while bs < length:
+            if not _inr(off + rs + bs, len(vals)):
+                return False
+            if vals[off + rs + bs] != 32:
+                break
+            bs += 1
+        while be >= 0:
+            if not _inr(off + rs + be, len(vals)):
+                return False
+            if vals[off + rs + be] != 32:
+                break
+            be -= 1
+        al = be - bs + 1
+        empty, valid = False, True
+        if al <= 0:
+            empty, valid = True, False
+        else:
+            a = off + rs + bs
+            val = vals[a:a + al]
+            if al == 1:
+                if len(val) != 1:
+                    return True                                 # ValueError in every mode
+                valid = val[0] in (49, 89, 121, 84, 116, 48, 78, 110, 70, 102)
+            elif al in NBT_WORDS:
+                valid = False
+                for alt in NBT_WORDS[al]:                       # `and` chains, left to right, short-circuit
+                    hit = True
+                    for k, chars in enumerate(alt):
+                        if not _inr(k, len(val)):
+                            return False
+                        if val[k] not in chars:
+                            hit = False
+                            break
+                    if hit:
+                        valid = True
+                        break
+            else:
+                valid = False
+        if not (_inr(r, nel) and _inr(r, nval)):
+            return False
+        if not valid and (mode == "strict" or (mode == "allow_empty" and not empty)):
+            break
+    return True
+
+
+def random_numeric_bool(rng, n_cases):
+    """staging arrays as the CSV reader fills them (cells of a boolean column, padded / stale entries), the three validation
+    modes, and malformed calls (short column_vals, column subscript out of range, short elements / validity, more rows
+    than were staged)"""
+    out = []
+    modes = ["strict", "allow_empty", "relaxed"]
+    for t in range(n_cases):
+        mode = modes[t % 3]
+        ncols = rng.randrange(1, 4)
+        nrows = rng.choice([0, 1, 2, 3, rng.randrange(1, 9)])
+        p_good = {"strict": 0.9, "allow_empty": 0.75, "relaxed": 0.4}[mode] if rng.random() < 0.8 else 0.3
+        cinds, vals, coffs = [], [], [0]
+        for c in range(ncols):
+            row, buf = [0], []
+            for _ in range(nrows):
+                w = rng.choice(NBT_GOOD) if rng.random() < p_good else rng.choice(NBT_CELLS)
+                if rng.random() < {"strict": 0.08, "allow_empty": 0.2, "relaxed": 0.1}[mode]:
+                    w = rng.choice([b"", b" ", b"   "])             # an empty cell (message 1 in strict mode)
+                buf.extend(w)
+                row.append(len(buf))
+            stale = rng.randrange(0, 3)                         # stale entries after the rows written in this call
+            cinds.append(row + [rng.randrange(0, 5) for _ in range(stale)])
+            vals.extend(buf + [88] * rng.randrange(0, 3))
+            coffs.append(len(vals))
+        width = max(len(r) for r in cinds)
+        cinds = [r + [0] * (width - len(r)) for r in cinds]
+        ic = rng.randrange(0, ncols)
+        rows, nel, nval = nrows, nrows, nrows
+        what = rng.randrange(14)
+        if what == 0:
+            ic = ncols + rng.randrange(0, 2)                    # the column subscript beyond the staging arrays
+        elif what == 1:
+            vals = vals[:rng.randrange(0, len(vals) + 1)]       # short column_vals
+        elif what == 2:
+            nel = rng.randrange(0, nrows + 1)                   # short elements
+        elif what == 3:
+            nval = rng.randrange(0, nrows + 1)                  # short validity
+        elif what == 4:
+            rows = nrows + rng.randrange(1, 3)                  # more rows than were staged
+        elif what == 5:
+            nel, nval = nrows + rng.randrange(1, 3), nrows + rng.randrange(0, 2)      # longer destination arrays
+        elif what == 6 and nrows:
+            rows = rng.randrange(0, nrows)                      # fewer rows than were staged
+        elif what == 7 and vals:
+            # column offsets shifted by -len(column_vals): every byte subscript is negative and wraps to the same byte (in
+            # range; the translation answers `negative_index`, which is not compared; the slices differ: `val` may be empty)
+            coffs = [o - len(vals) for o in coffs]
+        inv = rng.choice([0, 0, 0, 1, -1, 5])
+        name = rng.choice([b"f", b"flag", b"a b", b""])
+        safe = numeric_bool_safe(nel, nval, cinds, vals, coffs, ic, rows, mode)
+        out.append(gcase("numeric_bool_transform",
+                         [barr([False] * nel), barr([True] * nval), arr2(cinds), arr(vals), arr(coffs), {"int": ic},
+                          {"int": rows}, {"int": inv}, {"str": mode}, arr(name)], unsafe=not safe, _from="random"))
     return out
 
 
@@ -1368,6 +1501,8 @@ def _decode(np, a):
         return np.int64(a["int"])
     if "bool" in a:
         return bool(a["bool"])
+    if "str" in a:
+        return a["str"]
     return None
 
 
@@ -1400,6 +1535,8 @@ def impl(case):
         ops = importlib.import_module("exetera.core." + module)
     fn = getattr(ops, case["kernel"])
     args = [_decode(np, a) for a in case["args"]]
+    for i, dt in (KERNELS.get(case["kernel"], {}).get("dtypes") or {}).items():
+        args[i] = args[i].astype(dt)         # array arguments whose dtype at the real call site is not int64
     ret = fn(*args)
     # a kernel without `return` yields None: its result is what it stored into its array parameters
     parts = [] if ret is None else [_canon(np, x) for x in ret] if isinstance(ret, tuple) else [_canon(np, ret)]
